@@ -585,7 +585,7 @@ def _check(prop, cfg, tier, seed, scratch, t0):
                             % ("; ".join(v["obligation"] for v in violations)[:400], sorted({q for v in violations for q in v["speaks_for"]}), prop, qs, culprit[0][1].get("check"), str(culprit[0][1].get("input"))[:120], prop))
     if (novalue or deferred) and not violations and not bounded_viol:
         raise NoVerdict("; ".join(novalue + deferred))
-    for d in deferred:
+    for d in deferred + (novalue if bounded_viol else []):
         log("note: the deductive part gave no verdict (%s); the violation below comes from the bounded stand-in with a concrete failing input" % d[:300])
 
     # ---- report -----------------------------------------------------------
